@@ -136,6 +136,15 @@ def setChildren (_ : Container) (m : Container) : Container := m
     association list) -/
 def ensureChildren (c : Container) : Container := c
 
+/-! ## Go maps `map[string]dom.Leaf` (the result of `Flatten`) -/
+
+/-- `map[string]dom.Leaf`: the association list, iterated in key order like every Go map here -/
+abbrev LeafMap := List (String × Leaf)
+/-- `make(map[string]Leaf)` -/
+def newLeafMap : LeafMap := []
+/-- `m[k] = leaf` -/
+def leafMapSet (m : LeafMap) (k : String) (v : Leaf) : LeafMap := AMap.insert m k v
+
 /-! ## builders (functional updates) -/
 
 /-- `&listBuilderImpl{}`; `dom.ListNode()` -/
@@ -153,6 +162,19 @@ def leafNode (v : Any) : Node := .leaf v
 
 /-- `slices.Reverse(xs)` on a local slice -/
 def slicesReverse {α : Type} (xs : List α) : List α := xs.reverse
+
+/-! ## strings -/
+
+/-- `strings.Split(s, sep)` on characters, for a ONE-character separator: always at least one component -/
+def splitOnChar (sep : Char) : List Char → List (List Char)
+  | [] => [[]]
+  | c :: cs =>
+    match splitOnChar sep cs with
+    | [] => [[c]]
+    | h :: t => if c = sep then [] :: h :: t else (c :: h) :: t
+
+/-- `strings.Split(s, sep)` for a constant one-character separator (the translator rejects any other) -/
+def stringsSplit1 (s : String) (sep : Char) : List String := (splitOnChar sep s.toList).map String.ofList
 
 /-! ## numbers -/
 
